@@ -209,7 +209,7 @@ func c05Describe(c *c05Case) string {
 			isa = strings.Join(c.form.ISAs, "+")
 		}
 	}
-	parts := []string{c.gen.Opcode, sfx, sig, isa, c05Features(c), c.stream, strconv.Itoa(len(c.ops))}
+	parts := []string{c.call, sfx, sig, isa, c05Features(c), c.stream, strconv.Itoa(len(c.ops))}
 	for _, op := range c.ops {
 		parts = append(parts, c05EncOp(op))
 	}
@@ -246,9 +246,22 @@ func c05Decode(c *c05Case) string {
 		}
 		return strings.Join(append(head, "undecoded", "0"), " ")
 	}
+	if n < want && c.call == "CALL" {
+		// the assembler wraps a function that calls in a frame (push rbp; mov rbp,rsp; …; pop rbp): judge the call itself
+		for _, e := range c.dis {
+			q := strings.SplitN(e, "|", 3)
+			if len(q) == 3 && strings.HasPrefix(strings.TrimSpace(q[2]), "call") {
+				o2, _ := strconv.Atoi(q[0])
+				n2, _ := strconv.Atoi(q[1])
+				if d, err := c05ParseIntel(q[2], c.blobBase, o2+n2, c.code); err == nil {
+					return strings.Join(append(head, d), " ")
+				}
+			}
+		}
+	}
 	if n < want {
-		// more than one machine instruction: report all of them joined
-		return strings.Join(append(head, "multiple", strconv.Itoa(len(c.dis))), " ")
+		// more than one machine instruction
+		return strings.Join(append(head, "multiple", "0"), " ")
 	}
 	d, err := c05ParseIntel(text, c.blobBase, n, c.code)
 	if err != nil {
@@ -308,11 +321,24 @@ func c05Scripted(db *formsDB, g *c05Gen) []*c05Case {
 		{"malformed:sp-index", "ADDQ", nil, []operand.Op{operand.Mem{Base: reg.RAX, Index: reg.RSP, Scale: 1}, reg.RBX}},
 		{"malformed:narrow-base", "ADDQ", nil, []operand.Op{operand.Mem{Base: reg.EAX, Disp: 8}, reg.RBX}},
 		{"scripted:ok-addq", "ADDQ", nil, []operand.Op{reg.R13, operand.Mem{Base: reg.R12, Index: reg.R13, Scale: 8, Disp: -128}}},
+		// accepted operand shapes whose printed form the assembler reads differently or not at all (review C05-3)
+		{"shape:label-regname", "JMP", nil, []operand.Op{operand.LabelRef("AX")}},
+		{"shape:label-regname", "JNE", nil, []operand.Op{operand.LabelRef("R8")}},
+		{"shape:label-regname", "CALL", nil, []operand.Op{operand.LabelRef("AX")}},
+		{"shape:pseudo-nosym", "MOVQ", nil, []operand.Op{operand.Mem{Base: reg.FramePointer, Disp: 8}, reg.RAX}},
+		{"shape:pseudo-nosym", "MOVQ", nil, []operand.Op{operand.Mem{Base: reg.StaticBase, Disp: 8}, reg.RAX}},
+		{"shape:sym-gpbase", "MOVQ", nil, []operand.Op{operand.Mem{Symbol: operand.Symbol{Name: "x"}, Base: reg.RAX, Disp: 8}, reg.RBX}},
+		{"shape:param-nonident", "MOVQ", nil, []operand.Op{operand.NewParamAddr("a-b", 8), reg.RAX}},
+		{"shape:param-regname", "MOVQ", nil, []operand.Op{operand.NewParamAddr("AX", 8), reg.RAX}},
+		{"scripted:ok-movq-param", "MOVQ", nil, []operand.Op{operand.NewParamAddr("ax_1", 8), reg.RAX}},
+		{"scripted:ok-movw-imm16", "MOVW", nil, []operand.Op{operand.U16(0x8000), reg.R9W}},
+		{"scripted:ok-movw-imm16-neg", "ADDW", nil, []operand.Op{operand.I16(-32768), reg.BX}},
+		{"scripted:ok-movq-i64", "MOVQ", nil, []operand.Op{operand.I64(-0x80000001), reg.R10}},
 		{"scripted:ok-evex", "VADDPD", []string{"BCST", "Z"}, []operand.Op{operand.Mem{Base: reg.R12, Disp: 8}, reg.Z17, reg.K3, reg.Z31}},
 	}
 	var out []*c05Case
 	for _, s := range list {
-		idxs := db.byOpcode[s.opcode]
+		idxs := c05Call[s.opcode]
 		if len(idxs) == 0 {
 			continue
 		}
@@ -340,7 +366,11 @@ func c05Emit(o *out, db *formsDB, cases, panics []*c05Case) map[string]any {
 			o.emit("asm-text "+tok, "panic")
 			return
 		}
-		o.emit("asm-text "+tok, hexs(text))
+		// exact comparison with the model's renderer, except for constants: the property pins their value down, not
+		// their spelling ($0x05 / $5 / $+5 are the same constant to the assembler); accept-parse judges the value read back
+		if !strings.HasPrefix(tok, "i:") {
+			o.emit("asm-text "+tok, hexs(text))
+		}
 		o.emit("accept-parse "+tok+" "+hexs(text), "ok")
 		count["operands"]++
 	}
@@ -355,7 +385,7 @@ func c05Emit(o *out, db *formsDB, cases, panics []*c05Case) map[string]any {
 			emitOperand(op)
 		}
 		desc := c05Describe(c)
-		opcodes[c.gen.Opcode] = true
+		opcodes[c.call] = true
 		if c.form != nil {
 			forms[c.form.Index] = true
 		} else {
@@ -373,6 +403,14 @@ func c05Emit(o *out, db *formsDB, cases, panics []*c05Case) map[string]any {
 			count["asm_rejected"]++
 		}
 		count["stream_"+strings.SplitN(c.stream, ":", 2)[0]]++
+		if c.tail {
+			count["padded_block"]++
+		}
+		for _, op := range c.ops {
+			if tok := c05EncOp(op); strings.HasPrefix(tok, "i:") {
+				count["const_"+strings.Split(tok, ":")[1]]++
+			}
+		}
 		if f := c05Features(c); f != "-" {
 			for _, t := range strings.Split(f, "+") {
 				count["feat_"+t]++
@@ -399,7 +437,7 @@ func c05Emit(o *out, db *formsDB, cases, panics []*c05Case) map[string]any {
 		st[k] = v
 	}
 	st["opcodes_covered"] = len(opcodes)
-	st["opcodes_total"] = len(db.byOpcode)
+	st["opcodes_total"] = len(c05Call)
 	st["forms_covered"] = len(forms)
 	st["forms_total"] = len(db.rows)
 	return st
@@ -533,7 +571,7 @@ func c05Replay(db *formsDB, g *c05Gen, lines []string) ([]*c05Case, error) {
 			}
 			ops = append(ops, op)
 		}
-		idxs := db.byOpcode[f[1]]
+		idxs := c05Call[f[1]]
 		if len(idxs) == 0 {
 			return nil, fmt.Errorf("unknown opcode %q", f[1])
 		}
